@@ -335,7 +335,208 @@ fn run_entry(e: &str, s: &str) -> String {
             Ok(r) => format!("ok {}{}", r.no_loop as u8, r.lock_on_active as u8),
             Err(_) => "err".into(),
         },
+        _ => run_entry3(e, s),
+    }
+}
+
+// ------------------------------------------------------------------------------------------------
+// third group of kernel entries (Model3.lean): WT, NV, FA, MA, IM
+// ------------------------------------------------------------------------------------------------
+pub const WRAP_FA: (&str, &str) = ("rule \"r\" { when X == 1 then foo(", "); }");
+pub const WRAP_MA: (&str, &str) = ("rule \"r\" { when X == 1 then $Obj.set(", "); }");
+pub const WRAP_IM: (&str, &str) = ("defmodule A { export: all }\ndefmodule B { import: ", " }");
+
+/// the shape of a `ConditionGroup`: what `parse_when_clause` built (leaves are opaque)
+fn cg_shape(g: &ConditionGroup) -> String {
+    use rust_rule_engine::types::LogicalOperator;
+    match g {
+        ConditionGroup::Single(_) => "L".into(),
+        ConditionGroup::Compound { left, operator, right } => format!(
+            "{}({},{})",
+            match operator {
+                LogicalOperator::And => "A",
+                LogicalOperator::Or => "O",
+                LogicalOperator::Not => "X",
+            },
+            cg_shape(left),
+            cg_shape(right)
+        ),
+        ConditionGroup::Not(x) => format!("N({})", cg_shape(x)),
+        ConditionGroup::Exists(x) => format!("E({})", cg_shape(x)),
+        ConditionGroup::Forall(x) => format!("F({})", cg_shape(x)),
+        ConditionGroup::Accumulate { .. } => "C".into(),
+        _ => "S".into(),
+    }
+}
+
+fn vals(vs: &[Value]) -> String {
+    format!("{} {}", vs.len(), if vs.is_empty() { "-".to_string() } else { vs.iter().map(val).collect::<Vec<_>>().join(";") })
+}
+
+/// positional parameters `"0", "1", …` of a custom action, in order
+fn params_vals(params: &std::collections::HashMap<String, Value>) -> String {
+    let mut vs = Vec::new();
+    for i in 0..params.len() {
+        match params.get(&i.to_string()) {
+            Some(v) => vs.push(v.clone()),
+            None => return "gap".into(),
+        }
+    }
+    vals(&vs)
+}
+
+fn run_entry3(e: &str, s: &str) -> String {
+    match e {
+        // parse_when_clause: the tree it builds (recursion through parentheses, || / &&, !, exists(, forall()
+        "WT" => match GRLParser::parse_rules(&format!("{}{}{}", WRAP_W.0, s, WRAP_W.1)) {
+            Ok(rs) if rs.len() == 1 => format!("ok {}", cg_shape(&rs[0].conditions)),
+            Ok(rs) => format!("ok other{}", rs.len()),
+            Err(_) => "err".into(),
+        },
+        // Query::variables / extract_variables (nested.rs): the chars[i] loops
+        "NV" => format!("ok {}", hexlist(&NestedQueryParser::parse(s).variables())),
+        // parse_function_args_as_params: positional parameters of a custom action
+        "FA" => match GRLParser::parse_rules(&format!("{}{}{}", WRAP_FA.0, s, WRAP_FA.1)) {
+            Ok(rs) => match rs.first().map(|r| r.actions.as_slice()) {
+                Some([ActionType::Custom { action_type, params }]) if rs.len() == 1 && action_type == "foo" => {
+                    format!("ok {}", params_vals(params))
+                }
+                _ => format!("ok other{}", rs.len()),
+            },
+            Err(_) => "err".into(),
+        },
+        // parse_method_args: arguments of `$Obj.set(..)`
+        "MA" => match GRLParser::parse_rules(&format!("{}{}{}", WRAP_MA.0, s, WRAP_MA.1)) {
+            Ok(rs) => match rs.first().map(|r| r.actions.as_slice()) {
+                Some([ActionType::MethodCall { object, method, args }]) if rs.len() == 1 && object == "Obj" && method == "set" => {
+                    format!("ok method {}", vals(args))
+                }
+                // what the code does at present: METHOD_CALL_REGEX never matches, the statement falls through to the
+                // function-call branch and becomes a custom action named after the method
+                Some([ActionType::Custom { action_type, params }]) if rs.len() == 1 && action_type == "set" => {
+                    format!("ok custom {}", params_vals(params))
+                }
+                _ => format!("ok other{}", rs.len()),
+            },
+            Err(_) => "err".into(),
+        },
+        // parse_import_spec through parse_with_modules: the imports of module B
+        "IM" => match GRLParser::parse_with_modules(&format!("{}{}{}", WRAP_IM.0, s, WRAP_IM.1)) {
+            Ok(p) => match p.module_manager.get_module("B") {
+                Ok(m) => {
+                    use rust_rule_engine::engine::module::ImportType;
+                    let v: Vec<String> = m
+                        .get_imports()
+                        .iter()
+                        .map(|d| {
+                            format!(
+                                "{}:{}",
+                                hx0(&d.from_module),
+                                match d.import_type {
+                                    ImportType::AllRules => "r",
+                                    ImportType::AllTemplates => "t",
+                                    _ => "o",
+                                }
+                            )
+                        })
+                        .collect();
+                    format!("ok {}", if v.is_empty() { "-".to_string() } else { v.join(",") })
+                }
+                Err(_) => "ok nomodule".into(),
+            },
+            Err(_) => "err".into(),
+        },
         _ => "bad-entry".into(),
+    }
+}
+
+const WT_LEAF: [&str; 14] = [
+    "X == 1", "A.b > 2", "Y != 3", "é == 1", "U.name == n", "Z<=4", "x", "", "Q.items count > 0", "f(a) == 1", "A.b + 1 > 2",
+    "exists(X == 1)", "forall(A.b > 2)", "B contains c",
+];
+const WT_TOK: [&str; 30] = [
+    "(", ")", "((", "))", "&&", "||", "!", "exists(", "forall(", " ", "X == 1", "A.b > 2", "é", "\u{a0}", "&", "|", "( ", " )", "!(",
+    "Y != 3", "()", "!!", "exists", "(X == 1)", ") && (", ") || (", "x", "1", "\u{3000}", "!exists(",
+];
+/// a random when clause: a tree of || / && / ! / exists( / forall( / parentheses (doubled, padded) over short leaves
+fn wt_tree(rng: &mut Rng, depth: u64) -> String {
+    if depth == 0 || rng.chance(1, 4) {
+        return rng.pick(&WT_LEAF).to_string();
+    }
+    let sp = |rng: &mut Rng| if rng.chance(1, 6) { rng.pick(&UWS_MAIN).to_string() } else if rng.chance(1, 2) { " ".to_string() } else { String::new() };
+    match rng.below(8) {
+        0 | 1 => {
+            let n = rng.range(2, 3);
+            let op = if rng.chance(1, 2) { "&&" } else { "||" };
+            let parts: Vec<String> = (0..n).map(|_| { let t = wt_tree(rng, depth - 1); if rng.chance(1, 2) { format!("({})", t) } else { t } }).collect();
+            parts.join(&format!("{}{}{}", sp(rng), op, sp(rng)))
+        }
+        2 => format!("({}{}{})", sp(rng), wt_tree(rng, depth - 1), sp(rng)),
+        3 => format!("(({}))", wt_tree(rng, depth - 1)),
+        4 => format!("!{}{}", sp(rng), wt_tree(rng, depth - 1)),
+        5 => format!("!({})", wt_tree(rng, depth - 1)),
+        6 => format!("exists({}{})", sp(rng), wt_tree(rng, depth - 1)),
+        _ => format!("forall({})", wt_tree(rng, depth - 1)),
+    }
+}
+
+const NV_TOK: [&str; 26] = [
+    "?", "?x", "?y", "?é", "?_a1", "??", "?٣", " WHERE ", " AND ", "p(", ")", ",", " ", "g(?z)", "q(?y, ?x)", "(", "é", "\u{a0}", "_", "1",
+    "?x?y", "WHERE", "?日本", "? ", "\u{1}", "?x_",
+];
+const ARG_TOK: [&str; 36] = [
+    "1", "-5", "2.5", "true", "null", "A.b", "x", ",", ", ", " ,", ",,", " ", "é", "\u{a0}", "+", "-", "*", "/", "a + 1", "[1", "2]", "[", "]",
+    "9223372036854775808", "日", "\u{3000}", "$v", "a.b.c", "1e5", "+1", "x y", "\t", "0", "_", "%", "99999999999999999999",
+];
+const IM_TOK: [&str; 24] = [
+    "A", "B", "MAIN", "C", "(", ")", "rules", "templates", "*", " ", "(rules *)", "(templates t)", "rule", "é", "\u{a0}", "((", "rules(", "A (",
+    "MAIN (rules * (templates x))", "a", "_", "import", ":", "\t",
+];
+
+/// generated cases for the third group of entries (fixed counts; runs after every older stream, which keeps their cases unchanged)
+fn gen3(rng: &mut Rng, out: &mut Vec<String>) {
+    // every nesting form of parse_when_clause, once each, at depth 1..3 around a leaf
+    for inner in ["X == 1", "X == 1 && Y != 3", "X == 1 || Y != 3"] {
+        let mut forms: Vec<String> = vec![inner.to_string()];
+        for _ in 0..3 {
+            let mut next = Vec::new();
+            for f in &forms {
+                for (a, b) in [("(", ")"), ("((", "))"), ("!", ""), ("!(", ")"), ("exists(", ")"), ("forall(", ")"), (" ( ", " ) "), ("(", ") && Z<=4"), ("Z<=4 || (", ")")] {
+                    next.push(format!("{}{}{}", a, f, b));
+                }
+            }
+            for f in next.iter().take(60) {
+                out.push(mk_case("WT", f));
+            }
+            forms = next.into_iter().take(12).collect();
+        }
+    }
+    for _ in 0..450 {
+        let s = match rng.below(4) {
+            0 => pick_soup(rng, &WT_TOK, 8, false),
+            _ => { let d = rng.range(1, 5); wt_tree(rng, d) }
+        };
+        // F-C05h: keep every leaf short (the whole clause is at most a few short leaves; a soup is at most 8 tokens)
+        let s: String = if s.len() > 160 { s.chars().take(80).collect() } else { s };
+        out.push(mk_case("WT", &s));
+    }
+    for _ in 0..600 {
+        out.push(mk_case("NV", &pick_soup(rng, &NV_TOK, 10, false)));
+    }
+    for e in ["FA", "MA"] {
+        for _ in 0..350 {
+            let s = pick_soup(rng, &ARG_TOK, 7, false);
+            out.push(mk_case(e, &s));
+        }
+    }
+    for _ in 0..350 {
+        let s = if rng.chance(1, 2) {
+            // `<source module> ( <what> …`: the shape parse_import_spec is written for
+            format!("{}{}({}", rng.pick(&["A", "MAIN", "B", "C", " A", "A\u{a0}", "\u{3000}MAIN ", "é"]), rng.pick(&["", " ", "\t"]), pick_soup(rng, &IM_TOK, 4, true))
+        } else {
+            pick_soup(rng, &IM_TOK, 6, true)
+        };
+        out.push(mk_case("IM", &s));
     }
 }
 
@@ -1624,6 +1825,7 @@ fn gen(rng: &mut Rng, n: usize, _tier: &str) -> Vec<String> {
         let s = if matches!(e, "WF" | "WG") { s.replace('"', "'") } else { s };
         out.push(mk_case(e, &s));
     }
+    gen3(rng, &mut out);
     out
 }
 
